@@ -438,7 +438,8 @@ def run_case(case, driver, npad, listlen, obsfail, idtag=""):
     try:
         pooled = driver.startswith("pool")
         rec = Recorder(prog, pooled, obsfail)
-        shared = driver.endswith("s") or driver in ("forced", "run", "closure") or any(p["seeded"] for p in case["prog"])
+        shared = driver.endswith("s") or driver in ("forced", "run", "closure", "group", "afterincr") or \
+            any(p["seeded"] for p in case["prog"])
 
         def mkbroker():
             b = dr.Broker()
@@ -484,7 +485,7 @@ def run_case(case, driver, npad, listlen, obsfail, idtag=""):
                 order = [prog.comp[a["c"]] for a in case["att"]]
                 rec.start_sub(graph, b)
                 dr.run_components(order, graph, b)
-            elif driver in ("closure", "run"):
+            elif driver in ("closure", "run", "group", "afterincr"):
                 # "run": the caller hands over a graph; "closure": the caller names targets and the engine
                 # derives the graph (determine_components / get_dependency_graph).  What the engine takes as
                 # the graph is observed at determine_components, what it evaluates (after the pruning done
@@ -505,6 +506,26 @@ def run_case(case, driver, npad, listlen, obsfail, idtag=""):
                 try:
                     if driver == "run":
                         dr.run(graph, b)
+                    elif driver == "group":
+                        # the caller names nothing: the default group, as the registry describes it
+                        # (only used for programs in which every component takes part)
+                        dr.run(broker=b)
+                    elif driver == "afterincr":
+                        # an earlier incremental evaluation of the same program in this process must not
+                        # change what a later evaluation does (the registries are shared state)
+                        dr.run_components, dr.determine_components = orig_rc, orig_dc
+                        quiet = dr.Broker()
+                        quiet.store_skips = bool(case["ss"])
+                        for c in range(1, prog.n + 1):
+                            if case["prog"][c - 1]["seeded"]:
+                                quiet[prog.comp[c]] = None if case["prog"][c - 1]["outc"] == "none" else Val("seed", c)
+                        for _ in dr.run_incremental(prog.graph(), quiet):
+                            pass
+                        prog.log[:] = []
+                        prog.elcount.clear()
+                        dr.run_components, dr.determine_components = rc_wrapper, dc_wrapper
+                        # ... then the caller names targets: the graph is derived from the registries as they are now
+                        dr.run(list(targets), b)
                     else:
                         form = prog.variant % 3
                         dr.run(targets[0] if len(targets) == 1 and form == 0 else (set(targets) if form == 1 else targets), b)
@@ -532,10 +553,11 @@ def run_case(case, driver, npad, listlen, obsfail, idtag=""):
             rec.events.append({"ev": "escaped", "exc": escaped})
         else:
             rec.end()
-        mode = "single" if driver in ("forced", "run", "closure") else ("pool" if pooled else "incr")
+        mode = "single" if driver in ("forced", "run", "closure", "group", "afterincr") else ("pool" if pooled else "incr")
         return {"id": "%s/%s%s%s" % (case["id"], driver, idtag, "/obsfail" if obsfail else ""),
                 "final": None if escaped else rec.final(),
-                "prog": prog.registered(npad, observed if driver == "closure" else None), "closure": driver == "closure", "strict": True, "arch": bool(case.get("arch")),
+                "prog": prog.registered(npad, observed if driver in ("closure", "afterincr") else None),
+                "closure": driver in ("closure", "afterincr"), "strict": True, "arch": bool(case.get("arch")),
                 "ss": bool(case["ss"]), "mode": mode,
                 "workers": max(workers, len(rec.threads), 1), "events": rec.events}
     finally:
@@ -546,6 +568,9 @@ def main():
     logging.disable(logging.CRITICAL)
     with open(sys.argv[1]) as f:
         inp = json.load(f)
+    # the "group" driver evaluates the default group by name: in this process the group index holds
+    # the generated program only (importing insights registered the shipped spec names in it)
+    dr.COMPONENTS[dr.GROUPS.single].clear()
     traces = []
     n = 0
     every = inp.get("obsfail_every", 0)
@@ -558,8 +583,10 @@ def main():
                 continue
             if drv != "forced" and not any(p["ingraph"] for p in case["prog"]):
                 continue    # dr.run({}) means "run the default group", not "run nothing"
-            if case.get("arch") and drv not in ("run", "closure"):
+            if case.get("arch") and drv not in ("run", "closure", "afterincr"):
                 continue    # the pruning for archive contexts is done by dr.run in a single pass
+            if drv == "group" and not all(p["ingraph"] for p in case["prog"]):
+                continue
             n += 1
             traces.append(run_case(case, drv, inp["npad"], inp["listlen"], bool(every and n % every == 0),
                                    inp.get("idtag", "")))
